@@ -45,13 +45,13 @@ type c24Op struct {
 }
 
 type c24Case struct {
-	Key string  `json:"key"`
-	Enc bool    `json:"enc,omitempty"` // the agent's Serf has a keyring (key commands really work)
+	Key string `json:"key"`
+	Enc bool   `json:"enc,omitempty"` // the agent's Serf has a keyring (key commands really work)
 	// SeqBase: request i carries Seq SeqBase+10+2i (the client picks sequence
 	// numbers freely; 0, the 32-bit and the sign boundary and the top of the
 	// range are the values an implementation might treat specially)
-	SeqBase uint64 `json:"seqbase,omitempty"`
-	Ops []c24Op `json:"ops"`
+	SeqBase uint64  `json:"seqbase,omitempty"`
+	Ops     []c24Op `json:"ops"`
 }
 
 var c24Plain = []string{
@@ -278,10 +278,10 @@ type c24Conn struct {
 }
 
 type c24Session struct {
-	x     *vkit.Ctx
-	key   string
-	r     *rig
-	conns [3]*c24Conn
+	x      *vkit.Ctx
+	key    string
+	r      *rig
+	conns  [3]*c24Conn
 	sent   []*c24Sent
 	all    []*c24Conn
 	ghosts map[string]bool
